@@ -6,6 +6,13 @@
 cd /verif || exit 2
 for d in seeded/*/; do
   n=$(basename $d); id=$(echo $n | sed 's/^R[0-9]-//')
+  case "$n" in harmless-*)
+    # behaviour-preserving rewrites: every check named in meta.json "observed" must stay quiet
+    ids=$(python3 -c "import json,re;print(' '.join(re.findall(r'C\d\d',json.load(open('$d/meta.json'))['observed'])))")
+    out=$(tools/try_seed.sh C01 /verif/$d/patch.diff $ids 2>&1 | grep -c VIOLATION)
+    [ "$out" = "0" ] && echo "$n QUIET ($ids)" || echo "$n FALSE-ALARM: $out check(s) of ($ids) report a violation"
+    continue;;
+  esac
   out=$(tools/try_seed.sh $id /verif/$d/patch.diff $id 2>&1 | tail -1)
   case "$out" in
     *no-failing-input-found*) echo "$n NOINPUT";;
